@@ -839,6 +839,14 @@ def build_cases(gen, rng, total_games, with_out_of_domain):
             case["verbose"] = True
         cases.append(case)
         cid += 1
+    # game lengths exactly at, just below and just above every ply threshold the tool uses (bucket boundaries)
+    for n in (0, 1, 29, 30, 31, 39, 40, 41, 49, 50, 51, 59, 60, 61, 69, 70, 71, 79, 80, 81, 99, 100, 101, 139, 140, 141):
+        for side in ("w", "b"):
+            g = shuffle_game(n)
+            g["white"], g["black"] = ("P", "X") if side == "w" else ("X", "P")
+            g["result"] = rng.choice(RESULTS)
+            cases.append({"id": cid, "family": "boundary_length", "player": "P", "flags": ["all"], "games": [g]})
+            cid += 1
     if with_out_of_domain:
         for n in (1024, 1030):
             g = shuffle_game(n)
